@@ -135,6 +135,12 @@ class Cron(addons.AddonMainTask, block.SBlock):
             nowt = nowdt.time()
             if index is None:
                 index = bisect.bisect_left(timetable, nowt) % tlen
+                # Recalculate all blocks with the very timestamp the index is based on.
+                # An alarm time falling between a block's own recalc() (when it was
+                # added or at the last reset) and this moment would be missed otherwise.
+                for blk in set().union(*self._alarms.values()):
+                    assert hasattr(blk, 'recalc')
+                    blk.recalc(nowdt)
             wakeup = timetable[index]
             self.log_debug("wakeup time: %s", wakeup)
 
